@@ -43,7 +43,7 @@ def handleDag (j : Json) : Except String Json := do
     labeled groups (dependencies first), as labels -/
 def handleGroups (j : Json) : Except String Json := do
   let cfg ← configOf j
-  let wf := wfB cfg
+  let wf := wfDB cfg
   let roots : List Nat ← match j.getObjVal? "visible" with
     | .ok (.arr a) => do
       let ls ← pathsOf a
